@@ -330,13 +330,13 @@ def number_probes(exe_d, exe_s):
 
 def model_witness(exe_t, has_hook):
     """when the string theorem no longer checks: the model's own counterexample, replayed on the code"""
-    pre = ("From Ink.Data Require Import Types.\nFrom Ink.Json Require Import JsonStd Tokenizer TokenizerProofs.\n"
+    pre = ("From Ink.Data Require Import Types.\nFrom Ink.Json Require Import JsonStd Tokenizer.\n"
            "From Ink.Gen Require Import TokGen.\n")
     try:
-        okb, logb = vlib.coq_make(["theories/Json/TokenizerProofs.vo"])
+        okb, logb = vlib.coq_make(["theories/Json/Tokenizer.vo"])
         if not okb:
             return None
-        w = vlib.coq_eval(pre, ["tok_witness tok_escapes tok_unknown tok_unicode"], name="c14wit")[0]
+        w = vlib.coq_eval(pre, ["tok_witness"], name="c14wit")[0]
     except RuntimeError:
         return None
     if not has_hook:
